@@ -4,6 +4,12 @@ import sys, json, os, shutil
 pid, n, caught, confirm = sys.argv[1:5]
 src = f"/tmp/seed-{pid}/{n}"
 dst = f"/verif/seeded/{pid}/{n}"
+if os.path.exists(dst):
+    # never overwrite an earlier seed: take the next free number
+    k = 1
+    while os.path.exists(f"/verif/seeded/{pid}/{k}"):
+        k += 1
+    dst = f"/verif/seeded/{pid}/{k}"
 os.makedirs(dst, exist_ok=True)
 for f in ("patch.diff", "demo_test.go"):
     shutil.copy(os.path.join(src, f), os.path.join(dst, f))
